@@ -457,10 +457,8 @@ func runCtx(w *lib.Writer, in CtxIn, class string) {
 		panic(lerr)
 	}
 	threads := []*lua.LState{L}
-	dead := []bool{false}
 	var opsCoq, obsCoq []string
 	fail := ""
-	liveCancelled := false
 	for _, o := range in.Ops {
 		func() {
 			defer func() {
@@ -475,28 +473,22 @@ func runCtx(w *lib.Writer, in CtxIn, class string) {
 			case "new":
 				th, _ := threads[o.A].NewThread()
 				threads = append(threads, th)
-				dead = append(dead, false)
 				opsCoq = append(opsCoq, fmt.Sprintf("XNew %d", o.A))
 			case "die":
 				st, err, _ := L.Resume(threads[o.A], body)
 				if st != lua.ResumeOK && fail == "" {
 					fail = fmt.Sprintf("Resume of thread %d: state %d, %v", o.A, st, err)
 				}
-				dead[o.A] = true
 				opsCoq = append(opsCoq, fmt.Sprintf("XDie %d", o.A))
 			}
 		}()
 		flags := make([]string, 0, len(threads)-1)
 		for i := 1; i < len(threads); i++ {
 			c := threads[i].Context() != nil && threads[i].Context().Err() != nil
-			if c && !dead[i] {
-				liveCancelled = true
-			}
 			flags = append(flags, lib.CoqBool(c))
 		}
 		obsCoq = append(obsCoq, lib.CoqList(flags))
 	}
-	_ = liveCancelled
 	id := w.Add(lib.Case{Input: in, Observed: obsCoq, Class: class, Nontrivial: len(threads) > 3,
 		Coq: fmt.Sprintf("CCtx %s %s", lib.CoqList(opsCoq), lib.CoqList(obsCoq))})
 	if fail != "" {
